@@ -1,0 +1,63 @@
+//go:build verif
+
+// Machine-checked contracts for package server (comment-only; see /verif/DESIGN.md).
+// This file is compiled only with the "verif" build tag and contains no code.
+
+package server
+
+//@ spec func step(s int, ok bool, n int) int = ite(ok, n, ite(s > 0, s - 1, s))
+//@ spec func maxInt(a int, b int) int = ite(a > b, a, b)
+//@
+//@ macro intervalOK(s *Server) bool = 0 <= s.Config.Server.TokenCheckInterval && s.Config.Server.TokenCheckInterval <= 1000000000
+//@
+//@ func (*Server).healthCheckInterval
+//@   property C20
+//@   requires intervalOK(s)
+//@   ensures ret0 == 1000000000 * s.Config.Server.TokenCheckInterval
+//@   modifies nothing
+//@
+//@ func (*Server).startHealthCheck
+//@   property C20
+//@   ensures @initial_budget healthStatus == s.Config.Server.TokenCheckFailures
+//@
+//@ func (*Server).pingOne
+//@   property C20
+//@   modifies nothing
+//@
+//@ func (*Server).healthCheck
+//@   property C20
+//@   ghost allOK bool = true
+//@   on call (*Server).pingOne(_, _) ret (ok): allOK = allOK && ok
+//@   loop 0 sig "for name, token := range s.tokens" invariant (len(notOK) == 0) == allOK
+//@   loop 0 invariant notOK == nil || allocated(notOK)
+//@   ensures @status_step healthStatus == step(old(healthStatus), allOK, old(s.Config.Server.TokenCheckFailures))
+//@   ensures @result ret0 == allOK
+//@   modifies global healthStatus, global healthLastPing
+//@
+//@ func (*Server).Healthy
+//@   property C20
+//@   requires intervalOK(s)
+//@   ghost age int = 0
+//@   ghost measured bool = false
+//@   on call time.Since(_) ret (d): age = ite(measured, age, d); measured = true
+//@   ensures @exact ret0 == (!s.Config.Server.Disabled && age <= 3 * 1000000000 * s.Config.Server.TokenCheckInterval && healthStatus > 0)
+//@   modifies nothing
+//@
+//@ func (*Server).healthCheckLoop
+//@   property C20
+//@   requires intervalOK(s)
+//@   ghost closedSeen bool = false
+//@   on recv s.Closed: closedSeen = true
+//@   loop 0 sig "for" invariant @no_spin_after_close !closedSeen
+//@
+//@ lemma hysteresis_init(n int)
+//@   property C20
+//@   requires n >= 1
+//@   ensures n == maxInt(0, n - 0)
+//@
+//@ lemma hysteresis_step(s int, f int, n int, ok bool)
+//@   property C20
+//@   requires n >= 1 && f >= 0 && s == maxInt(0, n - f)
+//@   ensures @preserved step(s, ok, n) == maxInt(0, n - ite(ok, 0, f + 1))
+//@   ensures @healthy_iff_fewer_than_n (step(s, ok, n) > 0) == (ite(ok, 0, f + 1) < n)
+//@   ensures @one_success_restores ok ==> step(s, ok, n) == n
